@@ -16,11 +16,12 @@ package core
 //@ func (*JApiCore).processContext
 //@   tag C06 C01 C02
 //@   let anc(k int) *directive.Directive : anc(0) == core.currentContextDirective ; forall k :: k >= 0 ==> anc(k+1) == (anc(k) == nil ? nil : anc(k).Parent)
-//@   requires core != nil && root != nil && DirWF(d) && d != core.currentContextDirective && 0 <= d.depth
+//@   requires core != nil && root != nil && DirWF(d) && d != core.currentContextDirective && d.Parent == nil
 //@   requires TreeWF() && (forall x *directive.Directive :: x != nil ==> x.Parent != d) && (core.currentContextDirective != nil ==> 0 <= core.currentContextDirective.depth)
 //@   modifies core.currentContextDirective, d.Parent, d.depth, *root, heap(Directive.Children)
 //@   ghostensures ret == nil && d.Parent != old(d.Parent) ==> d.depth == d.Parent.depth + 1
-//@   ghostensures !(ret == nil && d.Parent != old(d.Parent)) ==> d.depth == old(d.depth)
+//@   ghostensures ret == nil && d.Parent == old(d.Parent) ==> d.depth == 0
+//@   ghostensures ret != nil ==> d.depth == old(d.depth)
 //@   ensures TreeWF()
 //@   ensures ret == nil ==> core.currentContextDirective == d
 //@   ensures ret == nil ==> exists k :: k >= 0
@@ -91,7 +92,7 @@ package core
 // state of the core between two lexemes
 //@ pred CoreScanInv(core *JApiCore) = core != nil && core.scanner != nil && NextInv(core.scanner) && StackInv(core.scannersStack) && TreeWF()
 //@     && (core.currentContextDirective != nil ==> 0 <= core.currentContextDirective.depth)
-//@     && (core.currentDirective != nil ==> DirWF(core.currentDirective) && core.currentDirective != core.currentContextDirective && 0 <= core.currentDirective.depth
+//@     && (core.currentDirective != nil ==> DirWF(core.currentDirective) && core.currentDirective != core.currentContextDirective && core.currentDirective.Parent == nil
 //@            && (forall x *directive.Directive :: x != nil ==> x.Parent != core.currentDirective))
 
 //@ func (*JApiCore).processCurrentDirective
@@ -212,6 +213,9 @@ package core
 //@   tag C18 C07 C01 C02
 //@   requires core != nil && DirWF(paste) && MacroWF(core)
 //@   ensures [C18] old(has(core.bannedDirectives, 22)) ==> ret != nil && ret.index == paste.keywordCoords.begin && unchanged()
+//@   ensures [C06] forall x *directive.Directive :: x <= old(allocmark()) ==> x.Parent == old(x.Parent)
+//@   unclaimed #requires@processPasteDirectiveList the tree-wide well-formedness of macro bodies is not carried through the replay recursion
+//@   unclaimed #nil-deref@macro see above (macro bodies)
 //@   ensures [C07] !old(has(core.bannedDirectives, 22)) && paste.Annotation == "" && has(paste.namedParameters, "Name") && paste.namedParameters["Name"] != ""
 //@            && !old(has(core.macro, paste.namedParameters["Name"])) ==> ret != nil && unchanged()
 
@@ -293,3 +297,28 @@ package core
 //@   ensures [C02] ret != nil && len(core.scannersStack.stack) > 0 ==> len(ret.includeTrace) > 0
 //@   unclaimed #requires@processEOF the scan-level composition of CoreScanInv is not discharged (see comment above)
 //@   loop 1 invariant core != nil && StackInv(core.scannersStack)
+
+// ---------------------------------------------------------------- MACRO / PASTE replay (C06 re-resolution, C07)
+
+//@ func (directive.Directive).CopyWoParentAndChildren
+//@   inline
+
+// The replay pass re-resolves the context of a copy of every directive with the same processContext; after a
+// parenthesised directive the context goes back to the parent the COPY got (C06). Parents of pre-existing directives
+// are never changed by the replay.
+//@ func (*JApiCore).processDirective
+//@   tag C06 C07
+//@   requires core != nil && DirWF(d) && TreeWF() && (core.currentContextDirective != nil ==> 0 <= core.currentContextDirective.depth)
+//@   ensures [C06] forall x *directive.Directive :: x <= old(allocmark()) ==> x.Parent == old(x.Parent)
+//@   ensures [C06] ret == nil && d.type_ != 22 && d.HasExplicitContext ==> exists c *directive.Directive :: fresh(c) && core.currentContextDirective == c.Parent
+//@   unclaimed kind!=ensures only the C06 postconditions are claimed here: the tree-wide well-formedness of macro bodies (DirWF of every node, TreeWF across the recursion) is not carried through the replay, so the callee preconditions are assumed
+
+//@ func (*JApiCore).processPasteDirectiveList
+//@   tag C06 C07
+//@   requires core != nil
+//@   ensures [C06] forall x *directive.Directive :: x <= old(allocmark()) ==> x.Parent == old(x.Parent)
+//@   unclaimed kind!=ensures see processDirective
+//@   loop 1 invariant core != nil && 0 - 1 <= rangeindex && rangeindex < rangelen || rangelen == 0
+//@   loop 1 invariant forall x *directive.Directive :: x <= old(allocmark()) ==> x.Parent == old(x.Parent)
+//@ writers [C06] directive.Directive.type_ : directive.NewWithCallStack
+//@ writers [C06] directive.Directive.HasExplicitContext : (*JApiCore).processContextBegin
